@@ -1,6 +1,7 @@
 package rules
 
 import (
+	"go/types"
 	"sort"
 
 	"golang.org/x/tools/go/ssa"
@@ -36,12 +37,10 @@ func c12oldSetFromCgroup(c *Ctx) {
 		}
 		n++
 		for _, alt := range cellSources(args[2]) {
-			fromRead := false
-			for x := range backwardAll(alt) {
-				if call, ok := x.(*ssa.Call); ok && call.Call.IsInvoke() && call.Call.Method.Name() == "ReadCPUSet" {
-					fromRead = true
-				}
+			if _, isConst := alt.(*ssa.Const); isConst {
+				continue // the nil of a failed read (whether a write may follow it is the ERR rule's business)
 			}
+			fromRead := derivesFromReadCPUSet(fn, alt, 0)
 			if f := ownState(fn, alt); f != "" {
 				bad = sprintf("%s: one alternative of the old set is the plugin's own %s", c.InstrPos(cl), f)
 			} else if !fromRead {
@@ -55,6 +54,47 @@ func c12oldSetFromCgroup(c *Ctx) {
 	}
 	r.Check(bad == "", "FRESH", key, c.Pos(fn.Pos()), sprintf("%d apply call(s): the old set always comes from the cgroup file", n),
 		"the union of the loosening pass is built from a remembered set, not from what the cgroup holds now ("+bad+"): after any outside change of the file the root is shrunk below what its children still hold")
+}
+
+// derivesFromReadCPUSet: v has a cgroupReader.ReadCPUSet result in its backward slice - directly, or
+// through an in-package helper all of whose non-constant return alternatives derive from such a
+// read themselves (a helper that was split off from the caller).
+func derivesFromReadCPUSet(fn *ssa.Function, v ssa.Value, depth int) bool {
+	for x := range backwardAll(v) {
+		call, ok := x.(*ssa.Call)
+		if !ok {
+			continue
+		}
+		if call.Call.IsInvoke() && call.Call.Method.Name() == "ReadCPUSet" {
+			return true
+		}
+		callee := call.Call.StaticCallee()
+		if callee == nil || callee.Pkg != fn.Pkg || depth >= 2 || len(callee.Blocks) == 0 {
+			continue
+		}
+		some, all := false, true
+		for _, alt := range an.ReturnAlts(callee) {
+			for _, res := range alt.Results {
+				for _, src := range cellSources(res) {
+					if _, isConst := src.(*ssa.Const); isConst {
+						continue
+					}
+					if types.Identical(src.Type(), types.Universe.Lookup("error").Type()) {
+						continue
+					}
+					if derivesFromReadCPUSet(callee, src, depth+1) && ownState(callee, src) == "" {
+						some = true
+					} else {
+						all = false
+					}
+				}
+			}
+		}
+		if some && all {
+			return true
+		}
+	}
+	return false
 }
 
 // closuresOf: fn and every function literal nested in it.
